@@ -62,6 +62,10 @@ type Lifter struct {
 	Returns []string // rendered operands of return statements
 	WireAdv int      // advances derived from a length prefix on the wire
 	curRoot string
+	// foldFixedSize: while lifting Size(), x.Size() of a struct whose wire size
+	// is constant is that constant (the other side of the comparison, the bytes
+	// EncodeBebop writes, is folded the same way by SizeOf)
+	foldFixedSize bool
 	brPrefixVar string // byte decoder: the variable holding the record's length prefix
 	Safe    bool     // reader: checks are required
 	// RecClass maps the Go name of a nested record type to "struct", "message"
@@ -236,6 +240,11 @@ func (l *Lifter) lin(e ast.Expr) (Lin, bool) {
 			}
 		}
 		if recv, c, ok := methodCall(x, "Size"); ok && len(c.Args) == 0 {
+			if l.foldFixedSize {
+				if k, fixed := l.fixedOf(recv); fixed {
+					return Const(k), true
+				}
+			}
 			return Term("size("+l.op(recv)+")", 1), true
 		}
 		// the u32 length prefix found at the cursor
